@@ -44,9 +44,13 @@ def runs(prop, tier):
           [["--n", 4, "--alpha", "H3", "--amp", 5, "--ks", "2,3", "--orient", o] for o in (0, 1, 2)] + [["--n", 5, "--alpha", "H3", "--amp", 5, "--ks", "2", "--max-m", 6, "--orient", o] for o in (0, 1)]),
          ("positional output iterator (begin() of a pre-sized vector instead of a back_inserter): G(4) x A3, G(5) x A2, blob grammar x M3, k in {%s}" % ks_q,
           [["--n", 4, "--alpha", "A3", "--ks", ks_q, "--outiter", 1], ["--n", 5, "--alpha", "A2", "--ks", ks_q, "--outiter", 1], ["--grammar", "blobs:3:2", "--alpha", "M3", "--ks", ks_q, "--outiter", 1]]),
+         ("output iterator whose sink copies what it is assigned (boost::function_output_iterator over a callback taking a const reference): G(4) x A3, G(5) x A2, k in {%s}" % ks_q,
+          [["--n", 4, "--alpha", "A3", "--ks", ks_q, "--outiter", 2], ["--n", 5, "--alpha", "A2", "--ks", ks_q, "--outiter", 2]]),
          ("integral weight type (long): G(0..4) x A3, G(5) x {1,100}, amplified gadgets over G(4) x {1,1000,2000}, theta graphs with chords, k in {%s}" % ks_q,
           [["@long", "--n", n, "--alpha", "A3", "--ks", ks_q] for n in range(2, 5)] + [["@long", "--n", 5, "--alpha", "H2", "--ks", ks_q], ["@long", "--n", 4, "--alpha", "H3", "--amp", 5, "--ks", "2,3"],
            ["@long", "--families", "thetac:3:4", "--alpha", "A2H", "--ks", "2,3", "--wchunks", 32]]),
+         ("the library compiled as C++17 (language standard of the including translation unit): G(4) x A3, G(5) x A2, k in {%s}" % ks_q,
+          [["@cxx17", "--n", 4, "--alpha", "A3", "--ks", ks_q], ["@cxx17", "--n", 5, "--alpha", "A2", "--ks", ks_q]]),
          ("other build configurations of the library (PARMCB_LOGGING on, PARMCB_INVARIANTS_CHECK off): G(4) x A3, G(5) x A2, k in {%s}" % ks_q,
           [[t, "--n", 4, "--alpha", "A3", "--ks", ks_q] for t in ("@log", "@noinv")] + [[t, "--n", 5, "--alpha", "A2", "--ks", ks_q] for t in ("@log", "@noinv")]),
          ("another graph type (vertex property present, edge_weight behind an edge_index property): G(4) x A3, G(5) x A2, k in {%s}" % ks_q,
@@ -84,6 +88,8 @@ def _build_for(h):
         return vlib.build(h, "approx.cpp", flags=vlib.BASE_FLAGS + ["-fno-access-control", "-DVH_GRAPH_ALT"])
     if h in ("approx_cfg_log", "approx_cfg_noinv"):
         return vlib.build(h, "approx.cpp", flags=vlib.BASE_FLAGS + ["-fno-access-control"], cfg=vlib.gen_config(logging=(h == "approx_cfg_log"), invariants=(h != "approx_cfg_noinv")))
+    if h == "approx_cxx17":
+        return vlib.build(h, "approx.cpp", flags=vlib.CXX17_FLAGS + ["-fno-access-control"])
     if h == "approx_long":
         return vlib.build("approx_long", "approx.cpp", flags=vlib.BASE_FLAGS + ["-fno-access-control", "-DVH_WTYPE=long"])
     return _build()
@@ -103,7 +109,8 @@ def run(prop, tier):
     binary_long = vlib.build("approx_long", "approx.cpp", flags=vlib.BASE_FLAGS + ["-fno-access-control", "-DVH_WTYPE=long"])
     cfgbin = {"@altgraph": vlib.build("approx_altgraph", "approx.cpp", flags=vlib.BASE_FLAGS + ["-fno-access-control", "-DVH_GRAPH_ALT"]),
               "@log": vlib.build("approx_cfg_log", "approx.cpp", flags=vlib.BASE_FLAGS + ["-fno-access-control"], cfg=vlib.gen_config(logging=True)),
-              "@noinv": vlib.build("approx_cfg_noinv", "approx.cpp", flags=vlib.BASE_FLAGS + ["-fno-access-control"], cfg=vlib.gen_config(invariants=False))}
+              "@noinv": vlib.build("approx_cfg_noinv", "approx.cpp", flags=vlib.BASE_FLAGS + ["-fno-access-control"], cfg=vlib.gen_config(invariants=False)),
+              "@cxx17": vlib.build("approx_cxx17", "approx.cpp", flags=vlib.CXX17_FLAGS + ["-fno-access-control"])}
     c.builds_done()
     skipped = 0
     for bound, arglists in runs(prop, tier):
@@ -115,7 +122,7 @@ def run(prop, tier):
             r = vlib.run_harness(cfgbin[tag] if tag else binary_long if is_long else binary, list(args) + ["--props", prop, "--seed", vlib.seed(), "--deadline-s", int(c.remaining())])
             skipped += r.get("c06_skipped_structurally_invalid", 0)
             c.add_run(r, bound + (" [weight type long]" if is_long else "") + ((" [%s]" % tag[1:]) if tag else "") + " :: " + r["args"], CLASSES[prop],
-                      replay={"harness": "approx_long" if is_long else {"@log": "approx_cfg_log", "@noinv": "approx_cfg_noinv", "@altgraph": "approx_altgraph"}.get(tag, "approx")})
+                      replay={"harness": "approx_long" if is_long else {"@log": "approx_cfg_log", "@noinv": "approx_cfg_noinv", "@altgraph": "approx_altgraph", "@cxx17": "approx_cxx17"}.get(tag, "approx")})
             if prop == "C15":
                 c.extra["spanners_with_dropped_edges"] = c.extra.get("spanners_with_dropped_edges", 0) + r.get("spanners_with_dropped_edges", 0)
     if prop == "C06":
@@ -125,9 +132,9 @@ def run(prop, tier):
 
 def replay(prop, path):
     rp = vlib.load_replay(path)
-    p = subprocess.run([_build_for((rp.get("replay") or {}).get("harness", "approx")), "--replay-case", rp["case"], "--props", prop], stdout=subprocess.PIPE, text=True)
+    p = subprocess.run([_build_for((rp.get("replay") or {}).get("harness", "approx")), "--replay-case", rp["case"], "--props", prop] + vlib.replay_opts(rp, ("--outiter",)), stdout=subprocess.PIPE, text=True)
     print(p.stdout)
-    if "REPLAY-VIOLATION" in p.stdout:
+    if "REPLAY-VIOLATION" in p.stdout or p.returncode < 0:      # a replay that dies on a signal reproduces a crash
         print("VIOLATION property=%s replay=%s" % (prop, path))
         return 1
     return 0
